@@ -44,6 +44,55 @@ pub fn show_entries(es: &[WalEntry]) -> String {
 
 pub type Image = Vec<(u64, Vec<u8>)>;
 
+/// boundary values of an unsigned little-endian field of `width` bytes: 0, 1, max-15..=max,
+/// 2^31 +- 1, 2^32 - 1, 2^32 (+1), 2^63 +- 1 (as far as they fit) plus `extra`
+pub fn boundary_values(width: usize, extra: &[u64]) -> Vec<u64> {
+    let max: u64 = if width >= 8 { u64::MAX } else { (1u64 << (8 * width)) - 1 };
+    let mut v: Vec<u64> = vec![0, 1];
+    for k in 0..16u64 {
+        v.push(max - k.min(max));
+    }
+    for c in [(1u64 << 31) - 1, 1 << 31, (1 << 31) + 1, (1 << 32) - 1, 1 << 32, (1 << 32) + 1, (1 << 63) - 1, 1 << 63, (1 << 63) + 1] {
+        if c <= max {
+            v.push(c);
+        }
+    }
+    for e in extra {
+        if *e <= max {
+            v.push(*e);
+        }
+    }
+    v.sort();
+    v.dedup();
+    v
+}
+
+pub fn le_bytes(v: u64, width: usize) -> Vec<u8> {
+    v.to_le_bytes()[..width.min(8)].to_vec()
+}
+
+/// constant runs: 0x00 / 0xFF (erased flash) / 0x55 of 4, 8, 16 and 64 bytes
+pub fn constant_runs() -> Vec<Vec<u8>> {
+    let mut r = Vec::new();
+    for b in [0x00u8, 0xFF, 0x55] {
+        for n in [4usize, 8, 16, 64] {
+            r.push(vec![b; n]);
+        }
+    }
+    r
+}
+
+/// write `v` over `b` from `pos`, clipped to the length of `b` (the model's `overwrite`)
+pub fn overwrite(b: &[u8], pos: usize, v: &[u8]) -> Vec<u8> {
+    let mut o = b.to_vec();
+    for (i, x) in v.iter().enumerate() {
+        if pos + i < o.len() {
+            o[pos + i] = *x;
+        }
+    }
+    o
+}
+
 pub fn image_of(store: &InMemoryWalStore) -> Image {
     let mut v: Image = store
         .list()
@@ -346,6 +395,75 @@ fn run_case(c: &Case, rng: &mut Rng, out: &mut Out, thorough: bool, fixed: Optio
                 r
             };
             ctx.out.count(&format!("damage-region:{}", region));
+        }
+        store.set_file_data(&name, bytes.clone());
+    }
+    // boundary values in every integer field of the file header and of the entry headers, and
+    // constant runs (00.. / FF.. / 55.. of 4, 8, 16, 64 bytes) written over / appended after a cut at
+    // every field and entry boundary
+    for (q, bytes) in &img {
+        let name = wal_name(*q);
+        // (position, width, is-length-field) of every integer field; entry boundaries
+        let mut fields: Vec<(usize, usize, bool)> = vec![(4, 1, false), (5, 1, false), (6, 2, false), (8, 8, false)];
+        let mut bounds: Vec<usize> = vec![0, 4, 8, 16];
+        let mut off = 16usize;
+        let app = ctx.appended.get(q).cloned().unwrap_or_default();
+        for (i, e) in app.iter().enumerate() {
+            // quick: the first entry and one more per file; thorough: all
+            let dense = thorough || i == 0 || i + 1 == app.len();
+            if dense {
+                fields.push((off, 4, true));
+                fields.push((off + 4, 8, false));
+                fields.push((off + 12, 4, false));
+                bounds.extend([off, off + 4, off + 12, off + 16]);
+            }
+            off += 16 + e.data.len();
+        }
+        bounds.push(bytes.len());
+        bounds.sort();
+        bounds.dedup();
+        for (pos, width, is_len) in fields {
+            if pos + width > bytes.len() {
+                continue;
+            }
+            let remaining = (bytes.len() - pos) as u64;
+            let extra: Vec<u64> = if is_len {
+                vec![remaining.saturating_sub(16), remaining.saturating_sub(15), remaining.saturating_sub(17), remaining, (1u64 << 32) - 16 - pos as u64, (1u64 << 32) - pos as u64]
+            } else {
+                vec![]
+            };
+            for v in boundary_values(width, &extra) {
+                let w = le_bytes(v, width);
+                if bytes[pos..pos + width] == w[..] {
+                    continue;
+                }
+                store.set_file_data(&name, overwrite(bytes, pos, &w));
+                let rec = recover(&rot);
+                ctx.out.op(format!("w {} {} {}", q, pos, hex(&w)), rec.as_ref().map(|r| show_entries(r)).unwrap_or("crash".into()));
+                ctx.check("boundary-value", *q, format!("pos={} width={} value={}", pos, width, v), &rec);
+                ctx.out.count(if is_len { "damage:boundary-value:length-field" } else { "damage:boundary-value:other-field" });
+            }
+        }
+        for p in bounds {
+            for run in constant_runs() {
+                if p < bytes.len() {
+                    store.set_file_data(&name, overwrite(bytes, p, &run));
+                    let rec = recover(&rot);
+                    ctx.out.op(format!("w {} {} {}", q, p, hex(&run)), rec.as_ref().map(|r| show_entries(r)).unwrap_or("crash".into()));
+                    ctx.check("constant-run", *q, format!("pos={} run={}x{:02x}", p, run.len(), run[0]), &rec);
+                    ctx.out.count(&format!("damage:constant-run:{:02x}", run[0]));
+                }
+                if run.len() >= 16 || thorough {
+                    // torn tail that reads back as a constant (erased flash)
+                    let mut b = bytes[..p].to_vec();
+                    b.extend_from_slice(&run);
+                    store.set_file_data(&name, b);
+                    let rec = recover(&rot);
+                    ctx.out.op(format!("ta {} {} {}", q, p, hex(&run)), rec.as_ref().map(|r| show_entries(r)).unwrap_or("crash".into()));
+                    ctx.check("cut+constant-tail", *q, format!("cut={} tail={}x{:02x}", p, run.len(), run[0]), &rec);
+                    ctx.out.count(&format!("damage:cut+constant-tail:{:02x}", run[0]));
+                }
+            }
         }
         store.set_file_data(&name, bytes.clone());
     }
